@@ -389,7 +389,7 @@ def needs_dataset(op):
     if k == "modify":
         return bool(op[1] or op[4] or op[5] or (op[2] and op[2][1]) or (op[3] and op[3][1]) or c04.contains(op[6], "graph"))
     if k in ("clear", "drop"):
-        return op[2] != "DEFAULT"
+        return op[2] not in ("DEFAULT", "NAMED", "ALL")  # (a single graph is all there is and has no named graphs)
     return True
 
 
@@ -517,7 +517,7 @@ def operations(draw, data, dataset, by_name=False):
             named = draw(st.lists(gname, min_size=0 if using else 1, max_size=2, unique=True))
         return [k, with_, dele, ins, using, named, pat]
     if k in ("clear", "drop"):
-        return [k, draw(st.booleans()), draw(st.sampled_from(["DEFAULT", "NAMED", "ALL"] + GNAMES + ([DEFAULT_BY_NAME] if by_name else []))) if dataset else "DEFAULT"]
+        return [k, draw(st.booleans()), draw(st.sampled_from(["DEFAULT", "NAMED", "ALL"] + GNAMES + ([DEFAULT_BY_NAME] if by_name else []))) if dataset else draw(st.sampled_from(["DEFAULT", "DEFAULT", "NAMED", "ALL"]))]
     # (the default graph now and then by its own name: the same graph as DEFAULT)
     names = ["DEFAULT"] + GNAMES + (["DEFAULT", DEFAULT_BY_NAME] if by_name else [])
     src = draw(st.sampled_from(names))
